@@ -164,6 +164,26 @@ Theorem pending_tasks_keep_beat_order : forall (h : list op) (s : clockstate) (p
     p_beats p1' = p_beats p1 /\ p_beats p2' = p_beats p2 /\ toQ (p_secs p1') <= toQ (p_secs p2').
 Proof. exact pending_order. Qed.
 
+(* A routine on the clock that yields a number ("beats advance at the current tempo", for every routine and
+   every history of changes made from routines on the clock).  The routine is woken as the pending task p (due at
+   beat p_beats p); while it runs the clock goes through ANY history h1 (its own changes); it yields d and is filed
+   again (resched: due d beats after the beat it woke at, under beats2secs in the state of that moment); while it
+   sleeps the clock goes through ANY history h2 (changes made by other routines, which re-time it).  Then it wakes
+   when clock.beats reads exactly (beat it woke at) + d, at beats2secs of that beat in the wake-up state, and not
+   before a second whose beat is not past it.  (Requires the scheduler to keep the NEW due beat of a re-scheduled
+   task: ClockTask.beats.) *)
+Theorem yield_advances_by_delta : forall (s : clockstate) (p : pend) (d : num) (h1 h2 : list op),
+  WF s -> 0 < toQ (tempo s) -> Forall op_ok h1 -> Forall op_ok h2 ->
+  ok (p_beats p) -> ok d -> p_secs p = py_beats2secs s (p_beats p) ->
+  val (wake_beat_of s p) (toQ (p_beats p)) /\
+  exists s1 s2 q, run s h1 = Some s1 /\ run_pend s1 h2 (resched s1 (wake_beat_of s p) d) = Some (s2, q) /\
+    run s1 h2 = Some s2 /\ WF s2 /\
+    p_secs q = py_beats2secs s2 (p_beats q) /\
+    val (p_beats q) (toQ (p_beats p) + toQ d) /\
+    val (wake_beat_of s2 q) (toQ (p_beats p) + toQ d) /\
+    (forall now', ok now' -> toQ (py_beats s2 now') <= toQ (p_beats q) -> toQ now' <= toQ (p_secs q)).
+Proof. exact yield_advances. Qed.
+
 (* --- histories, with the logical time of each change as data -------------------------------
    integrate folds the changes over the ideal piecewise-affine clock (T, B, V) = "beat B at second T,
    V beats per second since":  tempo/etempo at time t keep the beat of t and change V;  beats = v at t
@@ -284,6 +304,15 @@ Example ex_pending_order :
   = (Some (1, 37, 32), Some (1, 5, 4))%Z.
 Proof. vm_compute. reflexivity. Qed.
 
+(* a walker woken at beat 9/4 on ex_clock yields 2; meanwhile another routine sets tempo 8 (at 17/16 s) and beats = 2 (at 9/8 s):
+   it wakes reading 17/4 = 9/4 + 2, at second 9/8 + (17/4 - 2)/8 = 45/32 *)
+Example ex_yield :
+  option_map (fun sp => (canon (wake_beat_of (fst sp) (snd sp)), canon (p_secs (snd sp))))
+    (run_pend ex_clock [OTempo (F (17 # 16)) (I 8); OBeats (F (9 # 8)) (F (2 # 1))]
+       (resched ex_clock (wake_beat_of ex_clock (sched_abs_nrt ex_clock (F (9 # 4)))) (I 2)))
+  = Some ((1, 17, 4), (1, 45, 32))%Z.
+Proof. vm_compute. reflexivity. Qed.
+
 Print Assumptions beats_secs_inverse.
 Print Assumptions TInv_all_histories.
 Print Assumptions grid_minimal.
@@ -293,3 +322,4 @@ Print Assumptions history_consistent.
 Print Assumptions constructor_reference_point.
 Print Assumptions play_quant_wakes_on_grid_any_tempo.
 Print Assumptions pending_tasks_keep_beat_order.
+Print Assumptions yield_advances_by_delta.
